@@ -39,9 +39,35 @@ META = {
             "str::is_char_boundary on the bytes (not a continuation byte 10xxxxxx, or the end) and then acts on the "
             "bytes as &s[a..b] / replace_range do (strSlice_on_bytes, replaceRange_on_bytes). What remains trusted "
             "here: that Rust's String holds exactly these bytes and that `str: Ord` is the lexicographic order of "
-            "the bytes (both documented guarantees of std, exercised by the correspondence); `str::to_lowercase` is "
-            "modelled per character, its context-sensitive treatment of capital sigma is not modelled and U+03A3/σ/ς are "
-            "never generated; case mapping/character classes are parameters of the theorems and an oracle table in the "
+            "the bytes (both documented guarantees of std, exercised by the correspondence); both lower-casings of string.rs are "
+            "modelled since fix fbafd01: string-foldcase and the five string-ci comparisons fold every character on its "
+            "own (strLower = flatMap of char::to_lowercase; context free: foldcase_context_free, and pairwise char-ci=? "
+            "strings with one-character foldings are string-ci=?: string_ci_eq_of_pairwise, "
+            "string_ci_eq_of_char_ci_eq, stringCiEq_ok), string-downcase is str::to_lowercase INCLUDING its "
+            "context-sensitive Final_Sigma rule (strLowerCtx: U+03A3 becomes ς iff preceded, skipping Case_Ignorable "
+            "characters, by a Cased character and not followed, skipping Case_Ignorable characters, by a Cased one, else "
+            "σ - a transcription of map_uppercase_sigma / case_ignorable_then_cased of library/alloc/src/str.rs); "
+            "closed theorems relate the two: equal on strings without U+03A3 (downcase_ctx_eq_lower_of_no_sigma), in "
+            "general one piece per source character that differs only at a capital sigma, whose piece is σ or ς "
+            "(downcase_ctx_sigma_only; position by position on the results, with equal lengths, for a table mapping Σ "
+            "to σ: downcase_ctx_pointwise, downcase_ctx_length), and the distinction is real: on a concrete table "
+            "fragment strLowerCtx is not context free and, used as a folding (the code before the fix), makes "
+            "string-ci=? disagree with pairwise char-ci=? (final_sigma_context_sensitive, final_sigma_breaks_ci). "
+            "Σ σ ς are generated in word-final, -initial, -medial position, alone, doubled, next to Case_Ignorable "
+            "characters (. : ' soft hyphen, combining acute, middle dot, and ʰ which is Cased and Case_Ignorable) and to "
+            "uncased ones (digit, space, €) for every case operation, with a corpus regression for the repaired witness "
+            "(string-ci=? \"ΑΣ\" \"ασ\"). The two predicates of the rule are oracle bits `cased` and `caseIgnorable` "
+            "sent per character with the case table; char::is_cased / is_case_ignorable are not public, so the harness "
+            "observes them through str::to_lowercase itself (cased := (c+\"Σ\").to_lowercase() ends in ς, i.e. Cased and "
+            "not Case_Ignorable; caseIgnorable := not cased and (\"Α\"+c+\"Σ\").to_lowercase() ends in ς; std skips "
+            "Case_Ignorable characters before it asks is_cased, so the cased bit of an ignorable character is never "
+            "consulted) - this ties the SHAPE of the rule (skip, then test, on both sides) to std on every generated "
+            "string, while the membership of the two Unicode classes, like the case mappings, stays trusted to std's "
+            "Unicode tables; the ASCII-prefix fast path of str::to_lowercase is covered by the correspondence only; "
+            "R7RS's char-foldcase/string-foldcase are Unicode case FOLDING (which maps ς to σ) while marwood folds with "
+            "char::to_lowercase (ς stays ς, so (char-ci=? #\\σ #\\ς) and (string-ci=? \"ΑΣ\" \"ας\") are #f): the "
+            "property is stated relative to the case table, this is observed, not judged; "
+            "case mapping/character classes are parameters of the theorems and an oracle table in the "
             "correspondence (so agreement with the Unicode standard itself is not claimed); string->list is covered "
             "for its character selection (substring theorem) and by correspondence for the list it builds; char "
             "predicates/char-upcase etc. are table lookups; the ASCII fast path is closed both ways: it agrees with the simple "
@@ -65,7 +91,10 @@ stringToVector_ok stringCase_ok integerToChar_ok integerToChar_err charToInteger
 charUpcase_eq_simple charFoldcase_eq_simple charUpcase_ascii charFoldcase_ascii
 utf8_encode_injective utf8_encode_prefix_free utf8_char_order utf8_encode_length utf8_byteLen utf8_encode_is_core
 utf8_order utf8_order_rel utf8_order_core cmpText_bytewise cmpOp_bytewise stringComp_bytewise nthOffset_eq_encoded
-charOffset_eq_encoded charOffsetInclusive_eq_encoded strSlice_on_bytes replaceRange_on_bytes""".split()]
+charOffset_eq_encoded charOffsetInclusive_eq_encoded strSlice_on_bytes replaceRange_on_bytes
+downcase_ctx_eq_lower_of_no_sigma downcase_ctx_sigma_only downcase_ctx_pointwise downcase_ctx_length
+foldcase_context_free string_ci_eq_of_pairwise string_ci_eq_of_char_ci_eq stringCiEq_ok
+final_sigma_context_sensitive final_sigma_breaks_ci""".split()]
 
 
 def nontrivial(req, impl):
@@ -80,7 +109,12 @@ def nontrivial(req, impl):
 
 
 def op_stats(ctx, stream, cases):
+    import re
     ops, errs = {}, {}
+    # Final_Sigma evidence: successful case operations / -ci comparisons executed while a string containing
+    # U+03A3 is live, and string-downcase results (the newest string) containing the final form U+03C2
+    sigma = {"downcase_with_capital_sigma_live": 0, "downcase_result_has_final_sigma": 0,
+             "foldcase_with_capital_sigma_live": 0, "string_ci_with_capital_sigma_live": 0}
     for req, impl, _ in cases:
         toks = req.split(" ")[2:]
         steps = impl[3:].split("|")
@@ -89,6 +123,17 @@ def op_stats(ctx, stream, cases):
             ops[name] = ops.get(name, 0) + 1
             if not s.startswith("ok"):
                 errs[name] = errs.get(name, 0) + 1
+            elif name in ("string-downcase", "string-foldcase") or name.startswith("string-ci"):
+                strs = [m.group(1).split(",") for m in re.finditer(r"\{#\d+ ([\d,]+)\}", s)]
+                live = any("931" in x for x in strs)
+                if name == "string-downcase":
+                    sigma["downcase_with_capital_sigma_live"] += live
+                    sigma["downcase_result_has_final_sigma"] += bool(strs) and "962" in strs[-1]
+                elif name == "string-foldcase":
+                    sigma["foldcase_with_capital_sigma_live"] += live
+                else:
+                    sigma["string_ci_with_capital_sigma_live"] += live
+    ctx.streams[stream]["final_sigma"] = sigma
     ctx.streams[stream]["ops"] = ops
     ctx.streams[stream]["ops_failed"] = errs
     ctx.streams[stream]["steps"] = sum(ops.values())
@@ -125,9 +170,12 @@ def run(ctx):
              "string make-string string-append string{=,<,>,<=,>=}? string-ci{…}? string-upcase/-downcase/-foldcase "
              "char->integer integer->char char-alphabetic?/-numeric?/-whitespace?/-upper-case?/-lower-case? "
              "char-upcase/-downcase/-foldcase char{=,<,>,<=,>=}? char-ci{…}? (mutators and copies weighted up); "
-             "characters from a 34-element alphabet of 1-, 2-, 3- and 4-byte characters (case pairs, multi-character "
+             "characters from a 38-element alphabet of 1-, 2-, 3- and 4-byte characters (case pairs, multi-character "
              "case images ß ŉ İ ﬁ, title case ǅ, non-ASCII digits/white space, NUL, U+D7FF, U+E000, U+FFFD, astral "
-             "letters); indices/ranges -1..len+1 plus len+5, 2^63-1, 2^63, 2^64-1, 2^64, -2^63, non-numbers; "
+             "letters) and, one time in six, from the Final_Sigma alphabet Σ σ ς Α α a Z . : ' U+00AD U+0301 U+00B7 "
+             "U+02B0 1 space €; words of 1-5 characters over that alphabet are set up as strings, are the argument of one "
+             "in three string-upcase/-downcase/-foldcase and half of the case-counterpart pairs fed to string-ci…? "
+             "(the counterpart of a sigma being any of the three); indices/ranges -1..len+1 plus len+5, 2^63-1, 2^63, 2^64-1, 2^64, -2^63, non-numbers; "
              "integer->char arguments around and inside the surrogate range, 0x10FFFF, 0x110000, 2^32-1, 2^32, -1, "
              "random below 0x110100; each operation is (define p<k> (proc arg ...)) evaluated with eval_text in a real "
              "Vm (release and debug profile), every pool object read back after every operation with sharing labels; "
@@ -136,5 +184,9 @@ def run(ctx):
              "request text",
         trusted_extra=["case-mapping/character-class oracle table: computed per sequence by the harness with Rust's "
                        "char::to_lowercase/to_uppercase/is_* for every character occurring in the sequence (closed under "
-                       "the mappings); a character missing from the table maps to U+FFFD+itself, a visible disagreement",
+                       "the mappings), plus the two context bits cased / caseIgnorable observed through "
+                       "str::to_lowercase on the probe strings c+Σ and Α+c+Σ; an entry without the context bits is not "
+                       "decoded (bad-op), a character missing from the table maps to U+FFFD+itself (string-downcase then "
+                       "uses the per-character images), a visible disagreement; `store replay` recomputes the table, "
+                       "so corpus lines carry a bare `T`",
                        "reference store Marwood.Spec (RStore + StrVec) used as property oracle"])
